@@ -22,7 +22,8 @@ ASSUMPTIONS = ['per-qubit acquisition_index = number of earlier measurements of 
 RULE = ('quick: code distance (data qubits) 2..5, rounds lists with distinct entries 0..6 of length 1..4 (all single-entry lists for d = 2, 3; random longer ones), '
         'random computational initial states (all of them for one fixed rounds list at d = 2, 3), refocusing on/off; every ancilla of every circuit is observed; '
         'malformed stream: empty rounds list (error class only). thorough: distance up to 6, entries 0..8, length up to 5. '
-        'non-trivial: at least two blocks or a 0-round block')
+        'non-trivial: at least two blocks or a 0-round block'
+        ' Every second case builds the kernel BEFORE the circuit, both from one description object (its own qubit-id lists).')
 
 
 def circ(d, rounds, state, refocus=True):
